@@ -136,6 +136,13 @@ func (g *c12Gen) nodes(depth int, inMacro int) []MNode {
 				}
 				nd.Params = append(nd.Params, p)
 			}
+			// a default that names a parameter of the same macro means the outer binding in pongo2 and
+			// the parameter in Jinja2; the statement does not say, so such defaults are not generated
+			for k := range nd.Params {
+				if meMentions(nd.Params[k].Def, used) {
+					nd.Params[k].Def = &ME{K: "int", I: 7}
+				}
+			}
 			nd.Body = g.nodes(depth-1, idx)
 			if drawBool(g.t, "setinbody") {
 				// a binding made directly in the macro body must stay in the macro
